@@ -9,6 +9,8 @@
 name: array_remove_at.transfer
 define: U_REMOVE_AT
 src: array.c
+native: array_list
+native_includes: array.c
 enforce: spif_array_remove_at
 backend: sat
 flags: --slice-formula
@@ -19,6 +21,8 @@ quick: no
 name: array_remove.transfer
 define: U_REMOVE
 src: array.c
+native: array_list
+native_includes: array.c
 enforce: spif_array_remove
 backend: sat
 flags: --slice-formula
@@ -30,6 +34,8 @@ loops: 1
 name: array_to_array.owned
 define: U_TO_ARRAY
 src: array.c
+native: array_list
+native_includes: array.c
 enforce: spif_array_to_array
 backend: sat
 loops: 1
@@ -41,6 +47,8 @@ loops: 1
 name: array_map_remove.transfer
 define: U_MREMOVE, VA_COMP_KEY, VA_SLOTS_NONNULL
 src: array.c, objpair.c, obj.c
+native: array_map
+native_includes: array.c
 enforce: spif_array_map_remove
 backend: sat
 flags: --slice-formula
@@ -52,6 +60,8 @@ loops: 1
 name: array_get_keys.owned
 define: U_GET_KEYS, VA_COMP_KEY, VA_SLOTS_NONNULL
 src: array.c, objpair.c, obj.c
+native: array_map
+native_includes: array.c
 enforce: spif_array_get_keys
 backend: sat
 loops: 1
@@ -60,6 +70,8 @@ loops: 1
 name: array_get_pairs.owned
 define: U_GET_PAIRS, VA_COMP_KEY, VA_SLOTS_NONNULL, VM_DUP_IS_PAIR, VM_PAIR_BY_INDEX
 src: array.c, objpair.c, obj.c
+native: array_map
+native_includes: array.c
 enforce: spif_array_get_pairs
 backend: sat
 quick: no
@@ -69,6 +81,8 @@ loops: 1
 name: array_set.copies
 define: U_SET, VA_COMP_KEY, VA_SLOTS_NONNULL, VM_PAIR_BY_INDEX
 src: array.c, objpair.c, obj.c
+native: array_map
+native_includes: array.c
 enforce: spif_array_set
 replace: spif_array_insert
 backend: sat
